@@ -432,7 +432,7 @@ func init() {
 		Assume:      []string{"a hang is detected by a watchdog (30 s without progress)"},
 		QuickCap:    100 * time.Second,
 		ThoroughCap: 20 * time.Minute,
-		HangLimit:   30 * time.Second,
+		HangLimit:   240 * time.Second,
 		Run:         runC08,
 		Replay: func(c *core.Ctx, cs core.Case) *core.Viol {
 			return c08One(cs.Bytes(), cs.Cfg == "line", cs.Kind)
